@@ -399,6 +399,22 @@ theorem failure_roundtrip_hold_times (C : OnionCrypto) (pre : List RelayHop) (fk
   simp only [Nat.zero_add, List.nil_append, Nat.sub_zero]
   rw [take_min_of_length_le _ _ _ (by simp)]
 
+/-- the same, phrased on what the sender observes: whenever the attribution data survived all relays (at least
+    one), the sender reads the failing hop, code, data and every hop's hold time -/
+theorem failure_roundtrip_hold_times_of_kept (C : OnionCrypto) (pre : List RelayHop) (hne : pre ≠ []) (fk : FailKeysX)
+    (hf : Nat) (post : List FailKeysX) (code : Nat) (data : Bytes) (hc : code < 65536)
+    (hkept : (relayChainX C pre (buildFailurePacket C fk code data hf)).attr.isSome)
+    (hhf : hf < 4294967296) (hh : ∀ kh ∈ pre, kh.2 < 4294967296)
+    (hno : NoEarlyMatch C (pre.map (fun kh => kh.1.base)) (buildFailure C fk.base code data)) :
+    decodeFailureX C (pre.map (fun kh => kh.1) ++ fk :: post)
+        (relayChainX C pre (buildFailurePacket C fk code data hf)).data
+        (relayChainX C pre (buildFailurePacket C fk code data hf)).attr =
+      (.attributed pre.length code data, (pre.map (fun kh => kh.2) ++ [hf]).take MAX_HOPS) := by
+  have h1 := ((relay_chain_length_and_attribution C pre (buildFailurePacket C fk code data hf)).2 hne).mp hkept
+  have hfit : updateFailHtlcWireLen (buildFailurePacket C fk code data hf) ≤ LN_MAX_MSG_LEN := by
+    rw [update_fail_htlc_wire_len_exact, if_pos (built_failure_length_and_fit C fk code data hf).2.1]; omega
+  exact (failure_roundtrip_hold_times C pre fk hf post code data hc hfit hhf hh hno).2
+
 /-- **…and when the message does not fit.** If the failing hop's packet with attribution data exceeds
     `LN_MAX_MSG_LEN` (failure data of 64530 … 65533 bytes) and at least one hop relays it, the sender receives
     no attribution data, still attributes the failure to the right hop with its code and data, and reports no
@@ -453,6 +469,20 @@ example (k : FailKeysX) : (relayFailurePacket toy k none ⟨zeros 64567, none⟩
   (relay_keeps_attribution_iff_fits toy k ⟨zeros 64567, none⟩ 7).2.2.1.mpr (by simp [LN_MAX_MSG_LEN])
 example (k : FailKeysX) : (relayFailurePacket toy k none ⟨zeros 64568, none⟩ (some 7)).attr = none :=
   ((relay_boundary toy k ⟨zeros 64568, none⟩ 7).2 (by simp [LN_MAX_MSG_LEN])).1
+
+
+-- wire lengths: 10 reason bytes without attribution data weigh 54 bytes, with it 978
+example : updateFailHtlcWireLen ⟨zeros 10, none⟩ = 54 ∧ updateFailHtlcWireLen ⟨zeros 10, some Attr.new⟩ = 978 := by
+  constructor <;> (rw [update_fail_htlc_wire_len_exact]; rfl)
+-- the failing hop's packet for 3 data bytes is 292 bytes long and fits; one for 64530 data bytes would not
+example : (buildFailurePacket toy ⟨[5], [6, 6], [7]⟩ 0x400f [1, 2, 3] 3).data.length = 292 := by
+  rw [(built_failure_length_and_fit toy _ _ _ _).1]; rfl
+example : ¬ updateFailHtlcWireLen (buildFailurePacket toy ⟨[5], [6, 6], [7]⟩ 0x400f (zeros 64530) 3) ≤ LN_MAX_MSG_LEN := by
+  rw [(built_failure_length_and_fit toy _ _ _ _).2.2]; simp
+-- a chain of two relays keeps a 292-byte failure's attribution data
+example : (relayChainX toy [(⟨[1], [2], [9]⟩, 5), (⟨[3, 3], [4], [8, 8]⟩, 7)]
+    (buildFailurePacket toy ⟨[5], [6, 6], [7]⟩ 0x400f [1, 2, 3] 3)).attr.isSome = true := by
+  rw [(relay_chain_length_and_attribution toy _ _).2 (by simp), (built_failure_length_and_fit toy _ _ _ _).1]; decide
 
 /-! ## non-vacuity (a toy stream/MAC, evaluated by the kernel) -/
 
